@@ -439,7 +439,7 @@ func TestVerifC08_histories(t *testing.T) {
 	r.Rule("state = (successful seals, successful opens, sealer restored?, opener restored?) relative to the start sequence number; " +
 		"a transition replays the shortest history on fresh real contexts and applies one more operation; non-trivial = distinct (AEAD, start, state)")
 	depthMerged := r.Pick(7, 10)
-	depthTree := r.Pick(4, 6)
+	depthTree := r.Pick(4, 5)
 	type job struct {
 		a  AEAD
 		s0 *big.Int
